@@ -10,6 +10,7 @@ Emit ==
     THEN PrintT(<<"EDGE", ToJson([ to |-> eff', fx |-> FALSE, lab |-> last' ])>>)
     ELSE PrintT(<<"EDGE", ToJson([ to |-> eff', fx |-> TRUE, lab |-> last',
                             hid |-> HidJson(wst', opened', nextId', curId', pos', names', info'),
-                            files |-> IF last'.op = "finalize" /\ last'.res = "Ok" THEN Files' ELSE <<>> ])>>)
+                            files |-> IF last'.op = "finalize" /\ last'.res = "Ok" THEN Files' ELSE <<>>,
+                            stream |-> IF last'.op = "finalize" /\ last'.res = "Ok" THEN stream' ELSE <<>> ])>>)
 InitPrint == (last.op = "new") => PrintT(<<"INIT", ToJson(eff)>>)
 =============================================================================
